@@ -38,3 +38,35 @@ Theorem C14_threshold_after_resize :
     next_threshold n = load_factor (transfer_new_len n) /\ transfer_new_len n = 2 * n.
 Proof. exact next_threshold_eq. Qed.
 Print Assumptions C14_threshold_after_resize.
+
+(* ---------- over all operation sequences (sequential refinement) ---------- *)
+From Flurry Require Import Model.Spec Proofs.SeqProofs Proofs.SeqFinal.
+
+Theorem C14_never_shrinks : forall khash remap keep s o,
+  WF khash s -> tlen_s s <= tlen_s (fst (step khash remap keep s o)).
+Proof. exact table_never_shrinks_final. Qed.
+Print Assumptions C14_never_shrinks.
+
+Theorem C14_removal_never_grows : forall khash remap keep s o,
+  WF khash s ->
+  match o with Remove _ | RemoveEntry _ | Retain _ | RetainForce _ | Clear => True | _ => False end ->
+  tlen_s (fst (step khash remap keep s o)) = tlen_s s.
+Proof. exact removal_never_grows_final. Qed.
+Print Assumptions C14_removal_never_grows.
+
+Theorem C14_compute_never_grows : forall khash remap keep s k f,
+  WF khash s -> sized s -> tbl s <> None ->
+  tlen_s (fst (step khash remap keep s (Compute k f))) = tlen_s s.
+Proof. exact compute_never_grows. Qed.
+Print Assumptions C14_compute_never_grows.
+
+Theorem C14_growth_only_when_due : forall khash remap keep s t o,
+  WF khash s -> sized s -> tbl s = Some t ->
+  tlen_s (fst (step khash remap keep s o)) <> tlen_s s ->
+  match o with
+  | Insert k _ _ | TryInsert k _ _ => growth_due khash s t k
+  | Reserve _ | Extend _ _ => True
+  | _ => False
+  end.
+Proof. exact growth_only_when_due_final. Qed.
+Print Assumptions C14_growth_only_when_due.
